@@ -267,11 +267,22 @@ def render_stmt(r, st, ind, kind):
         raise AssertionError(k)
 
 
-def render(body, kind):
+PAD_CONSTANTS = 300
+
+
+def render(body, kind, pad=False):
+    """pad=True: the function gets a docstring and a never-executed block that mentions PAD_CONSTANTS distinct constants
+    before anything else, so that every later constant (None included) has an index >= 256 and every instruction that
+    loads one - and every jump across the block - needs an EXTENDED_ARG prefix."""
     r = Rendered()
     head = {"coro": "async def prog(rt):", "agen": "async def prog(rt):",
             "gen": "def prog(rt):", "func": "def prog(rt):"}[kind]
     r.emit(0, head)
+    if pad:
+        r.emit(1, '"""padded variant"""')
+        r.emit(1, "if rt.never:")
+        for j in range(PAD_CONSTANTS):
+            r.emit(2, "z = %d" % (1000 + j))
     # a local bound to None: a context whose manager object is (momentarily) unknown must not be named after it
     r.emit(1, "z = None")
     if kind == "agen" and not has(body, ("susp",)):
@@ -588,6 +599,40 @@ def _am_reentrant(rt, i):
     return m
 
 
+class MR(M):
+    """like M, but where M would swallow the exception it leaves with, MR's __exit__ raises a NEW exception instead"""
+
+    def __exit__(s, *exc):
+        rt = s.rt
+        rt.exiting = s
+        rt.log.append(("exit", s.i, exc[0] is not None))
+        rt.probe("exit")
+        sw = rt.c() if exc[0] is not None else 0
+        rt.exiting = None
+        rt.active.remove(s)
+        rt.log.append(("exited", s.i, sw))
+        if sw:
+            raise E("raised by the __exit__ of %r" % (s,))
+        return False
+
+
+class AMR(AM):
+    async def __aexit__(s, *exc):
+        rt = s.rt
+        rt.exiting = s
+        rt.log.append(("exit", s.i, exc[0] is not None))
+        rt.probe("aexit0")
+        await trap("aexit")
+        rt.probe("aexit1")
+        sw = rt.c() if exc[0] is not None else 0
+        rt.exiting = None
+        rt.active.remove(s)
+        rt.log.append(("exited", s.i, sw))
+        if sw:
+            raise E("raised by the __aexit__ of %r" % (s,))
+        return False
+
+
 def _m_mixed(rt, i):
     return (M if i % 2 else MC)(rt, i)
 
@@ -600,7 +645,9 @@ def _am_mixed(rt, i):
 NS_MIXED = {"AM": _am_mixed, "M": _m_mixed, "E": E, "trap": trap}
 # every with-block of a program is served by one and the same (re-entrant) manager object per kind
 NS_REENTRANT = {"AM": _am_reentrant, "M": _m_reentrant, "E": E, "trap": trap}
-NAMESPACES = {"mixed": NS_MIXED, "reentrant": NS_REENTRANT}
+# managers that answer an exception with a new exception raised from __exit__/__aexit__ (instead of swallowing it)
+NS_RAISING = {"AM": AMR, "M": MR, "E": E, "trap": trap}
+NAMESPACES = {"mixed": NS_MIXED, "reentrant": NS_REENTRANT, "raising": NS_RAISING}
 
 
 def compile_prog(src, filename="<prog>", ns=None):
